@@ -6,7 +6,10 @@
      highest_word_normalized : the top word of x after shifting out its leading zeros, and the
                                bits of y at the same positions (y may be one word shorter, or more)
      lehmer_guess            : Euclid on the two top words while the Jebelean / Collins conditions
-                               t >= s, t + r <= ybar - c hold and the cofactors stay <= the limit
+                               t >= s, t + r <= ybar - c (first half: the (a, b) row) resp.
+                               t + r <= xbar - b (second half: the (c, d) row) hold and the cofactors
+                               stay <= the limit.  (Until finding F91 the second half compared with
+                               xbar - c; GcdExtAlg shows what that did to the extended gcd.)
      lehmer_step             : (x, y) := (a x - b y, d y - c x) word by word in signed double-word
                                arithmetic with signed carries; one more step on x's extra top word
      gcd_in_place            : guess; b = 0 -> a Euclidean step (x, y) := (y, x mod y); else the
@@ -78,9 +81,9 @@ Guess(st) ==
                     IF q2 > Lim THEN st1
                     ELSE LET r2 == st.d + q2 * s  s2 == st.c + q2 * r  t2 == st.yb - q2 * t
                              fits2 == q2 * s < Reg /\ r2 < Reg /\ q2 * r < Reg /\ s2 < Reg /\ q2 * t < Reg
-                             c2ok == t2 < s2 \/ (t2 + r2 < Reg /\ t >= st.c)
+                             c2ok == t2 < s2 \/ (t2 + r2 < Reg /\ t >= s)            \* xbar - b: b is the cofactor just stored (s), and t >= s was checked
                          IN IF r2 > Lim \/ s2 > Lim THEN [st1 EXCEPT !.ok = st1.ok /\ fits2]
-                            ELSE IF t2 < s2 \/ t2 + r2 > t - st.c THEN [st1 EXCEPT !.ok = st1.ok /\ fits2 /\ c2ok]
+                            ELSE IF t2 < s2 \/ t2 + r2 > t - s THEN [st1 EXCEPT !.ok = st1.ok /\ fits2 /\ c2ok]
                             ELSE LET st2 == [st1 EXCEPT !.d = r2, !.c = s2, !.yb = t2, !.ok = st1.ok /\ fits2 /\ c2ok] IN
                                  IF t2 = s2 THEN st2 ELSE Guess(st2)
 
